@@ -206,3 +206,242 @@ class NumDecode:
     def axioms(cls, k):
         # finite decoded floats pass the bounds check: lemma LemmaFloatBounds/decode-range (proved separately)
         return [LF.range_axiom(cls)] if cls._base_type is float else []
+
+
+# =============================================================================================== text
+import secsgem.common.codec_jis_x_0201 as JIS
+
+TEXT = [V.String, V.JIS8]
+TEXT_CASES = [(c.__name__, {"cls": c}) for c in TEXT]
+
+
+def codec_tables():
+    return {"jis-8": {"encode": dict(JIS.jis8_encoding_map), "decode": dict(JIS.jis8_decoding_map)}}
+
+
+def inv_text(self):
+    return forall(0, len(self.value), lambda j: e5.text_encodable(self.format_code, ord(self.value[j])))
+
+
+@contract("secsgem.secs.variables.base_text:BaseText.set", "C01")
+class TextSet:
+    """O9 (set): a str is stored unchanged (UnicodeEncodeError exactly when a character has no code unit,
+    ValueError exactly when longer than a positive count); bytes are stored as the characters they denote."""
+
+    cases = [(f"{c.__name__}-{form}", {"cls": c, "form": form}) for c in TEXT for form in ("str", "bytes")]
+    codec_tables = staticmethod(codec_tables)
+
+    def inputs(cls, form):
+        return {"self": Obj(cls, value=Str(), count=Int), "value": Str() if form == "str" else Bytes()}
+
+    def raises(self, value, case):
+        if case["form"] == "str":
+            bad = exists(0, len(value), lambda j: not e5.text_encodable(self.format_code, ord(value[j])))
+            return {UnicodeEncodeError: bad, ValueError: not bad and 0 < self.count < len(value)}
+        return {ValueError: 0 < self.count < len(value)}
+
+    def ensures(self, value, case):
+        fc = self.format_code
+        if case["form"] == "str":
+            return len(self.value) == len(value) and forall(0, len(value), lambda j: ord(self.value[j]) == ord(value[j]))
+        return len(self.value) == len(value) and forall(
+            0, len(value), lambda j: ord(self.value[j]) == e5.text_char(fc, value[j]))
+
+
+@contract("secsgem.secs.variables.base_text:BaseText.encode", "C01")
+class TextEncode:
+    """O9: bytes are canonical header ++ one code unit per character."""
+
+    cases = TEXT_CASES
+    codec_tables = staticmethod(codec_tables)
+
+    def inputs(cls):
+        return {"self": Obj(cls, value=Str(), count=Int)}
+
+    def requires(self):
+        return inv_text(self)
+
+    def raises(self):
+        return {ValueError: len(self.value) > 0xFFFFFF}
+
+    def ensures(self, result):
+        fc = self.format_code
+        n = len(self.value)
+        hl = e5.hlen(n)
+        return (len(result) == hl + n and seq_eq_at(result, 0, e5.header_min(fc, n))
+                and forall(0, n, lambda j: result[hl + j] == e5.text_byte(fc, ord(self.value[j]))))
+
+
+@contract("secsgem.secs.variables.base_text:BaseText.decode", "C01")
+class TextDecode:
+    """O10 (also C02): any k; restores exactly the characters the payload denotes, whatever the object held before."""
+
+    cases = [(f"{c.__name__}-k{k}", {"cls": c, "k": k}) for c in TEXT for k in (1, 2, 3)]
+    codec_tables = staticmethod(codec_tables)
+
+    def inputs(cls, k):
+        return {"self": Obj(cls, value=Str(), count=Int), "data": Bytes(min_len=1), "start": Int(0, None)}
+
+    def requires(self, data, start, case):
+        k = case["k"]
+        if not (start + 1 + k <= len(data) and data[start] == self.format_code * 4 + k):
+            return False
+        return start + 1 + k + e5.uint_at(data, start + 1, k) <= len(data)
+
+    def raises(self, data, start, case):
+        return {ValueError: 0 < self.count < e5.uint_at(data, start + 1, case["k"])}
+
+    def ensures(self, data, start, result, case):
+        k = case["k"]
+        fc = self.format_code
+        n = e5.uint_at(data, start + 1, k)
+        return (result == start + 1 + k + n and len(self.value) == n
+                and forall(0, n, lambda j: ord(self.value[j]) == e5.text_char(fc, data[start + 1 + k + j])))
+
+
+# =============================================================================================== binary
+@contract("secsgem.secs.variables.binary:Binary.set", "C01")
+class BinarySet:
+    """O11 (set): bytes/bytearray are stored byte for byte; an int 0..255 as one byte."""
+
+    cases = [(form, {"form": form}) for form in ("bytes", "bytearray", "int")]
+
+    def inputs(form):
+        v = {"bytes": Bytes(), "bytearray": ByteArray(), "int": Int}[form]
+        return {"self": Obj(V.Binary, value=ByteArray(), count=Int), "value": v}
+
+    def raises(self, value, case):
+        if case["form"] == "int":
+            return {ValueError: not 0 <= value <= 255 or 0 < self.count < 1}
+        return {ValueError: 0 < self.count < len(value)}
+
+    def ensures(self, value, case):
+        if case["form"] == "int":
+            return len(self.value) == 1 and self.value[0] == value
+        return len(self.value) == len(value) and forall(0, len(value), lambda j: self.value[j] == value[j])
+
+
+@contract("secsgem.secs.variables.binary:Binary.encode", "C01")
+class BinaryEncode:
+    cases = None
+
+    def inputs():
+        return {"self": Obj(V.Binary, value=ByteArray(), count=Int)}
+
+    def raises(self):
+        return {ValueError: len(self.value) > 0xFFFFFF}
+
+    def ensures(self, result):
+        n = len(self.value)
+        hl = e5.hlen(n)
+        return (len(result) == hl + n and seq_eq_at(result, 0, e5.header_min(0o10, n))
+                and forall(0, n, lambda j: result[hl + j] == self.value[j]))
+
+
+@contract("secsgem.secs.variables.binary:Binary.decode", "C01")
+class BinaryDecode:
+    """O11 (also C02): decode restores exactly the payload *whatever the object held before* (List.decode and
+    user code re-use objects), for every k."""
+
+    cases = [(f"k{k}", {"k": k}) for k in (1, 2, 3)]
+
+    def inputs(k):
+        return {"self": Obj(V.Binary, value=ByteArray(), count=Int), "data": Bytes(min_len=1), "start": Int(0, None)}
+
+    def requires(self, data, start, case):
+        k = case["k"]
+        if not (start + 1 + k <= len(data) and data[start] == 0o10 * 4 + k):
+            return False
+        return start + 1 + k + e5.uint_at(data, start + 1, k) <= len(data)
+
+    def raises(self, data, start, case):
+        return {ValueError: 0 < self.count < e5.uint_at(data, start + 1, case["k"])}
+
+    def ensures(self, data, start, result, case):
+        k = case["k"]
+        n = e5.uint_at(data, start + 1, k)
+        return (result == start + 1 + k + n and len(self.value) == n
+                and forall(0, n, lambda j: self.value[j] == data[start + 1 + k + j]))
+
+
+# =============================================================================================== boolean
+@contract("secsgem.secs.variables.boolean:Boolean.set", "C01")
+class BooleanSet:
+    cases = [(form, {"form": form}) for form in ("list", "bool")]
+
+    def inputs(form):
+        return {"self": Obj(V.Boolean, value=ListOf(Bool), count=Int), "value": ListOf(Bool) if form == "list" else Bool}
+
+    def raises(self, value, case):
+        if case["form"] == "list":
+            return {ValueError: 0 <= self.count < len(value)}
+        return {ValueError: False}
+
+    def ensures(self, value, case):
+        if case["form"] == "list":
+            return len(self.value) == len(value) and forall(0, len(value), lambda j: self.value[j] == value[j])
+        return len(self.value) == 1 and self.value[0] == value
+
+    def modifies(form=None):
+        return {"self.value": ListOf(Bool)}
+
+
+@contract("secsgem.secs.variables.boolean:Boolean.encode", "C01")
+class BooleanEncode:
+    """O12: one byte per element, 0x01 for True and 0x00 for False."""
+
+    cases = None
+
+    def inputs():
+        return {"self": Obj(V.Boolean, value=ListOf(Bool), count=Int)}
+
+    def raises(self):
+        return {ValueError: len(self.value) > 0xFFFFFF}
+
+    def ensures(self, result):
+        n = len(self.value)
+        hl = e5.hlen(n)
+        return (len(result) == hl + n and seq_eq_at(result, 0, e5.header_min(0o11, n))
+                and forall(0, n, lambda j: result[hl + j] == ite(self.value[j], 1, 0)))
+
+    def inv_1(self, result, i):
+        n = len(self.value)
+        hl = e5.hlen(n)
+        return (len(result) == hl + i and seq_eq_at(result, 0, e5.header_min(0o11, n))
+                and forall(0, i, lambda j: result[hl + j] == ite(self.value[j], 1, 0)))
+
+    loops = {1: Loop(a=inv_1)}
+
+
+@contract("secsgem.secs.variables.boolean:Boolean.decode", "C01")
+class BooleanDecode:
+    """O12 (also C02): every non-zero byte denotes True."""
+
+    cases = [(f"k{k}", {"k": k}) for k in (1, 2, 3)]
+    uses = [(BooleanSet, lambda case: {"form": "list"})]
+
+    def inputs(k):
+        return {"self": Obj(V.Boolean, value=ListOf(Bool), count=Int), "data": Bytes(min_len=1), "start": Int(0, None)}
+
+    def requires(self, data, start, case):
+        k = case["k"]
+        if not (start + 1 + k <= len(data) and data[start] == 0o11 * 4 + k):
+            return False
+        return start + 1 + k + e5.uint_at(data, start + 1, k) <= len(data)
+
+    def raises(self, data, start, case):
+        return {ValueError: 0 <= self.count < e5.uint_at(data, start + 1, case["k"])}
+
+    def ensures(self, data, start, result, case):
+        k = case["k"]
+        n = e5.uint_at(data, start + 1, k)
+        return (result == start + 1 + k + n and len(self.value) == n
+                and forall(0, n, lambda j: self.value[j] == (data[start + 1 + k + j] != 0)))
+
+    def inv_1(self, result, text_pos, data, start, i, case):
+        k = case["k"]
+        return (len(result) == i and text_pos == start + 1 + k + i
+                and forall(0, i, lambda j: result[j] == (data[start + 1 + k + j] != 0)))
+
+    def loops(k):
+        return {1: Loop(a=BooleanDecode.inv_1, types={"result": ListOf(Bool)})}
